@@ -211,9 +211,9 @@ theorem C07_tags_compose (pre hdr post : Text) (hpre : pre = [] ∨ ∃ p, pre =
   have e : pre ++ hdr ++ ['\n'] ++ post = pre ++ hdr ++ '\n' :: post := by simp
   unfold tagsCompose extractRaw extractRawWith
   simp only [filterIgnore_id hns, filterIgnore_id hh, Bool.and_eq_true, List.all_eq_true, List.contains_eq_mem,
-    decide_eq_true_eq, mem_dedup]
+    decide_eq_true_eq, mem_dedup, List.mem_filter]
   rw [e]
-  exact ⟨fun v hv => C07A.findTag_embed Generated.endRe _ (by decide) C07_tags_unusable.1 pre hdr post hpre hcl.1 v hv,
+  exact ⟨fun v hv => ⟨C07A.findTag_embed Generated.endRe _ (by decide) C07_tags_unusable.1 pre hdr post hpre hcl.1 v hv.1, hv.2⟩,
     fun v hv => C07A.findTag_embed Generated.endRe _ (by decide) C07_tags_unusable.2 pre hdr post hpre hcl.2 v hv⟩
 
 /-- **The file (C07_file).**  `C07_file_partial` with its per-case hypothesis `tagsCompose`
